@@ -117,6 +117,32 @@ CORPUS_LISTS = [
 ]
 
 
+TOP_CFGS = ["tnc.d.1.0.b", "tnc.0.1.0.u", "tc.d.1.0.u", "tc.0.0.0.b", "tc.3.1.0.a", "tdfa.d.1.0.u", "tdfa.d.0.0.a", "tdfa.d.1.0.b",
+            "auto.d.1.0.u", "auto.d.1.0.b", "auto.d.0.0.a", "auto.d.1.1.u", "tc.d.1.1.b", "tdfa.d.1.1.u"]
+
+
+def _top_reqs(g, n, mks, ops):
+    """The capstone model itself (TopLevel.lean: checked transcription of AhoCorasickBuilder::build + the public method
+    on the built automaton) against the real AhoCorasick methods, for every top-level configuration"""
+    out = []
+    for _ in range(n):
+        pats = g.pats() if g.rng.random() < 0.7 else pre_pats(g)
+        mk = g.rng.choice(mks)
+        hay = g.hay(pats, 14)
+        s0, e0 = g.span(len(hay))
+        op = g.rng.choice(ops)
+        kv = {"mk": mk, "pats": hxlist(pats), "hay": hx(hay), "s": s0, "e": e0}
+        if g.rng.random() < 0.3:
+            kv["anch"] = 1
+        if g.rng.random() < 0.2:
+            kv["fold"] = 1
+        if op == "topovl":
+            kv["n"] = 3 + (len(pats) + 1) * (len(hay) + 1) if g.rng.random() < 0.5 else g.rng.randint(1, 6)
+        kv["cfgs"] = cfgs(TOP_CFGS)
+        out.append(fmt_req(op, kv))
+    return out
+
+
 def _rawnnfa_reqs(g, n, mks):
     """Tie for the memory-level transcription of the compiler (L1cMemCompile): the raw `states` / `sparse` / `matches`
     vectors of the real noncontiguous NFA just before `shuffle` (hook H5) against `MemNfa.compile`, cell for cell"""
@@ -137,7 +163,7 @@ def gen_C01(tier, seed):
     g = Gen(seed)
     q = tier == "quick"
     cf = CFG_LOW + CFG_TOP
-    reqs = _rawnnfa_reqs(g, qn(q, 40, 400), ["lf", "ll"])
+    reqs = _rawnnfa_reqs(g, qn(q, 40, 400), ["lf", "ll"]) + _top_reqs(g, qn(q, 60, 600), ["lf", "ll"], ["topfind", "topiter"])
     for pats in CORPUS_LISTS:
         for mk in ("lf", "ll"):
             for hay in (b"abx", b"aab", b"abcabc", b"xabcd", b"aabab", b"samwise"):
@@ -169,7 +195,7 @@ def gen_C02(tier, seed):
     g = Gen(seed)
     q = tier == "quick"
     cf = CFG_LOW + CFG_TOP
-    reqs = _rawnnfa_reqs(g, qn(q, 40, 400), ["std"])
+    reqs = _rawnnfa_reqs(g, qn(q, 40, 400), ["std"]) + _top_reqs(g, qn(q, 60, 600), ["std"], ["topfind", "topiter"])
     for pats in CORPUS_LISTS:
         for hay in (b"abx", b"aab", b"abcabc", b"xabcd", b"aabab"):
             for op in ("find", "iter"):
@@ -196,7 +222,7 @@ def gen_C03(tier, seed):
     g = Gen(seed)
     q = tier == "quick"
     cf = CFG_LOW + ["tnc.d.1.0.b", "tdfa.d.1.0.u", "auto.d.1.0.u"]
-    reqs = _rawnnfa_reqs(g, qn(q, 30, 300), ["std"])
+    reqs = _rawnnfa_reqs(g, qn(q, 30, 300), ["std"]) + _top_reqs(g, qn(q, 60, 600), ["std", "std", "std", "lf"], ["topovl"])
     for pats in CORPUS_LISTS:
         for hay in (b"ab", b"abx", b"aab", b"abcabc", b"xabcd", b"aabab"):
             reqs.append(fmt_req("ovl", {"mk": "std", "pats": hxlist(pats), "hay": hx(hay),
@@ -298,6 +324,9 @@ def gen_C14(tier, seed):
     q = tier == "quick"
     cf = CFG_LOW + CFG_TOP + CFG_PRE
     reqs = _find_like(g, qn(q, 200, 2000), ["std", "lf", "ll"], ["ismatch"], cf)
+    reqs += _top_reqs(g, qn(q, 60, 600), ["std", "lf", "ll"], ["topismatch"])
+    # "true iff some pattern occurs" also with the default prefilters (a confirming prefilter must not invent a match)
+    reqs += _near_miss_reqs(g, qn(q, 80, 800), ["ismatch", "find"], CFG_PRE + ["auto.d.1.1.b"])
     reqs += _find_like(g, qn(q, 100, 1000), ["std", "lf", "ll"], ["ismatch"], CFG_ANCH, anch=True)
     reqs += _find_like(g, qn(q, 200, 2000), ["lf", "ll", "std"], ["find"], cf, earliest=True)
     reqs += _find_like(g, qn(q, 100, 1000), ["lf", "ll"], ["find"], CFG_ANCH, anch=True, earliest=True)
@@ -323,7 +352,19 @@ def gen_C16(tier, seed):
         hay = g.hay(pats, 12)
         reqs.append(fmt_req("recipe", {"mk": mk, "pats": hxlist(pats), "hay": hx(hay),
                                        "cfgs": cfgs(["nc.d.1.0.b", "c.d.1.0.b", "c.0.0.0.b", "dfa.d.1.0.u", "dfa.d.0.0.b"])}))
-    return {"reqs": reqs, "certs": certs, "first": False, "gen": g, "contract": True, "l1c": True}
+    # "... and matches the built-in search": the built-in search with the automaton's own prefilter (leftmost lists
+    # every prefilter variant accepts, with a shadowed pattern in the middle) and the recipe on the same inputs
+    for _ in range(qn(q, 60, 600)):
+        pats = pre_pats(g)
+        if len(pats) >= 2 and g.rng.random() < 0.7:
+            i = g.rng.randrange(len(pats))
+            pats = pats[:i + 1] + [pats[i] + g.word(b"abcdefgh", 1, 3)] + pats[i + 1:]
+        mk = g.rng.choice(["lf", "ll", "std"])
+        hay = pre_hay(g, pats)
+        lowpf = ["nc.d.1.1.b", "c.d.1.1.b", "dfa.d.1.1.u"]
+        reqs.append(fmt_req("recipe", {"mk": mk, "pats": hxlist(pats), "hay": hx(hay), "cfgs": cfgs(lowpf)}))
+        reqs.append(fmt_req("find", {"mk": mk, "pats": hxlist(pats), "hay": hx(hay), "cfgs": cfgs(lowpf)}))
+    return {"reqs": reqs, "certs": certs, "first": False, "gen": g, "contract": True, "l1c": True, "needs_cpu": True}
 
 
 STREAM_CFGS = ["nc.d.1.0.b", "c.d.1.0.b", "c.0.0.0.b", "dfa.d.1.0.u", "dfa.d.0.0.b", "tnc.d.1.0.u", "tdfa.d.1.0.u",
@@ -465,7 +506,9 @@ def gen_C18(tier, seed):
     return {"reqs": reqs, "certs": [], "gen": g, "needs_consts": STREAM_OPS, "needs_cap": STREAM_OPS}
 
 
-UTF8_CHARS = ["a", "b", "é", "ß", "€", "中", "😀", "x"]
+# (continuation bytes at both ends of their range, 0x80 and 0xBF, in every position of 2-, 3- and 4-byte characters)
+UTF8_CHARS = ["a", "b", "é", "ß", "€", "中", "😀", "x", "\u00bf", "\u0080", "\u00ff", "\u07ff", "\u0800", "\ufffd",
+              "\ufeff", "\U00010000", "\U0010ffff", "\U0003ffff"]
 
 
 def gen_C12(tier, seed):
@@ -588,6 +631,30 @@ def pre_hay(g, pats, fold=False):
     return bytes(out)
 
 
+def _near_miss_reqs(g, n, ops, cf, mks=("lf", "ll")):
+    """a confirming (packed) prefilter must not invent matches: packed-eligible lists (>= 4 distinct first bytes, lengths
+    5..15, so that no byte-set prefilter is available) and haystacks holding a pattern with ONE byte altered, at every
+    position of the pattern, short (Rabin-Karp path) and long (Teddy path), plus sometimes a genuine occurrence"""
+    out = []
+    for _ in range(n):
+        firsts = g.rng.sample(list(b"abcdefghij"), g.rng.randint(4, 6))
+        pats = [bytes([f]) + g.word(b"klmnopqr", g.rng.choice([4, 5, 6, 8, 9, 10, 12, 14]), 14)[: g.rng.choice([4, 5, 6, 8, 9, 10, 12, 14])]
+                for f in firsts]
+        p = g.rng.choice(pats)
+        k = g.rng.randrange(len(p))
+        miss = p[:k] + bytes([p[k] ^ g.rng.choice([1, 2, 0x10])]) + p[k + 1:]
+        pad = g.rng.choice([0, 1, 3, 20, 40])
+        hay = b"z" * pad + miss + b"z" * g.rng.choice([0, 2, 30])
+        if g.rng.random() < 0.3:
+            hay += g.rng.choice(pats) + b"z"
+        kv = {"mk": g.rng.choice(list(mks)), "pats": hxlist(pats), "hay": hx(hay), "cfgs": cfgs(cf)}
+        op = g.rng.choice(ops)
+        if op == "find" and g.rng.random() < 0.3:
+            kv["earliest"] = 1
+        out.append(fmt_req(op, kv))
+    return out
+
+
 def _resume_after_none(g, n, cf):
     """stepwise overlapping search, standard semantics, prefilter active, polled PAST its end: a pattern and an extension
     of it (the automaton sits in a match state), then bytes that send it back to the start state, a partial candidate
@@ -637,6 +704,7 @@ def gen_C05(tier, seed):
             kv["cfgs"] = cfgs(cf)
             reqs.append(fmt_req(op, kv))
     reqs += _resume_after_none(g, qn(q, 60, 600), cf)
+    reqs += _near_miss_reqs(g, qn(q, 80, 800), ["find", "iter", "ismatch"], cf)
     # the prefilters themselves: variant chosen + candidate for a span, against the L3 model
     pcf = ["nc.d.1.1.b", "c.d.1.1.b", "dfa.d.1.1.u"]
     for _ in range(qn(q, 300, 4000)):
